@@ -21,8 +21,18 @@ SPEC = {
              "once per pool): the Host of an entry without one must then be that name, not the address it resolves to; the pool (gun, provider, "
              "discard aggregator, once profiles) is built from a config map by "
              "config.DecodeAndValidate and run by the real engine against in-process recording HTTP, HTTPS and h2 servers; connections are "
-             "counted at the target (distinct connections that carried a request, and the accept / TLS-handshake counter). Non-trivial = "
-             "a configured header name also defined by an entry, or Host given by the ammo, or >= 2 instances; distinct = hash of the case. "
+             "counted at the target (distinct connections that carried a request, and the accept / TLS-handshake counter). "
+             "Added after seeded defect C09/m16: body sizes and the observers of a run are dimensions of every format and gun kind - in "
+             "one uripost / jsonline file in three and one raw file in two (raw requests are parsed from request text, the only ones "
+             "without http.Request.GetBody) one entry, in a quarter of those two, gets a body of 65535, 65536, 65537, 66000, 70000, "
+             "100000, 131072, 131073, 200000, 262144 or 300000 bytes (one in four moved by -3..3000 bytes; the drawn body followed by "
+             "numbered lines, so that a missing or displaced piece shows; jsonline then with `maxammosize` above the file size); every "
+             "second case writes `answlog: {enabled: true, path}` with no filter (the documented default `error`, which logs nothing "
+             "for a target answering 200) or filter all / warning / error, one case in three each `httptrace: {dump: true}` and "
+             "`{trace: true}`, a quarter each an engine logger of level debug and info - none of them is part of the request: the "
+             "comparison with the model is the same with and without them. Non-trivial = "
+             "a configured header name also defined by an entry, or Host given by the ammo, or >= 2 instances, or a body above 64 KiB "
+             "with an observer on; distinct = hash of the case. "
              "TestKeepAliveGaps: the keep-alive clause with instances that PAUSE between their requests: load profiles that leave every "
              "instance idle for 1.1-2.5 s between two shots (once-bursts separated by zero-rate const sections, for the pool or - "
              "rps-per-instance - for every instance; or a const profile of 1/pause ops per instance), 1-3 instances, http / connect / "
@@ -44,6 +54,16 @@ SPEC = {
                "TestWire/raw_sized_block_extends_past_body": 0.028, "TestWire/raw_sized_block_extends_past_bodiless_request": 0.026,
                "TestWire/raw_file_mixes_exact_and_extended_blocks_with_body": 0.009,
                "TestWire/raw_sized_block_extends_past_body_two_passes": 0.011,
+               "TestWire/body_gt_64k": 0.12, "TestWire/body_64k_plus_minus_1": 0.035, "TestWire/body_ge_100k": 0.07,
+               "TestWire/body_gt_64k_raw": 0.03, "TestWire/body_gt_64k_uripost": 0.04, "TestWire/body_gt_64k_jsonline": 0.025,
+               "TestWire/answlog_enabled": 0.35, "TestWire/answlog_entry_with_body": 0.2,
+               "TestWire/body_gt_64k_answlog": 0.045, "TestWire/body_gt_64k_answlog_raw": 0.008,
+               "TestWire/body_gt_64k_answlog_uripost": 0.015, "TestWire/body_gt_64k_answlog_jsonline": 0.007,
+               "TestWire/body_gt_64k_answlog_nothing_logged": 0.02, "TestWire/body_gt_64k_answlog_all": 0.007,
+               "TestWire/body_gt_64k_answlog_http_gun": 0.03, "TestWire/body_gt_64k_answlog_http2_gun": 0.005,
+               "TestWire/body_gt_64k_httptrace_dump": 0.025, "TestWire/body_gt_64k_httptrace_trace": 0.035,
+               "TestWire/body_gt_64k_debug_log": 0.02, "TestWire/body_gt_64k_no_observer": 0.005,
+               "TestWire/httptrace_dump": 0.2, "TestWire/httptrace_trace": 0.18, "TestWire/log_level_debug": 0.15,
                "TestKeepAliveGaps/connection_reused_after_pause_gt_1s": 0.3,
                "TestKeepAliveGaps/reused_after_pause_idle_conn_timeout_default": 0.12,
                "TestKeepAliveGaps/reused_after_pause_idle_conn_timeout_written": 0.12,
@@ -57,10 +77,13 @@ SPEC = {
                  "headers only from the set Go's transport adds; with one instance the sequence equals file order; connections <= "
                  "instances with keep-alive, one per request without - for the http, connect and http2 guns alike, judged both by the "
                  "connections the requests arrived on and by the number of connections the target accepted; an http2 gun's "
-                 "requests arrive as HTTP/2.0. TestKeepAliveGaps: the same two connection clauses when the instances pause for 1.1-2.5 s "
+                 "requests arrive as HTTP/2.0. All of it holds unchanged for bodies up to 300 kB and whatever the run observes on "
+                 "the side (answlog enabled with any filter, httptrace dump / trace, a debug-level logger): switching an observer "
+                 "on does not change what is put on the wire. TestKeepAliveGaps: the same two connection clauses when the instances pause for 1.1-2.5 s "
                  "between their requests (far below the documented idle-conn-timeout of 90 s): connections seen by the target <= instances "
                  "with keep-alives, one per request without; every operation of the profile arrives as one request."),
-        "note": ("Servers are Go httptest servers (HTTP/1.1, optional TLS; TLS + h2 for the http2 gun); configured header names are unique; entries carry no "
+        "note": ("Servers are Go httptest servers (HTTP/1.1, optional TLS; TLS + h2 for the http2 gun); the answer log is a temporary file "
+                 "of the real file system (lib/answlog opens it with os.Create), removed after the case; configured header names are unique; entries carry no "
                  "Connection header; the server never closes idle connections during a case. Over HTTP/2 a Cookie header with an "
                  "empty value may be absent (the protocol sends one field per cookie pair). With a target given by name and "
                  "dial.dns-cache on, the one connection the pool opens and closes without a request to resolve the name "
